@@ -194,6 +194,8 @@ class FullEngine(Engine):
                     return [(q, VSeq(T.Dedup(s), ecn, "list"))]
                 return bind(self.eval(inner.args[0], p), k)
             raise Unsupported("starred list display")
+        if not e.elts:
+            return [(p, self.new_list(p, T.EMPTY()))]       # a list object with identity (it may escape)
         res = [(p, [])]
         for el in e.elts:
             nxt = []
@@ -758,6 +760,17 @@ class FullEngine(Engine):
         raise Unsupported(f"item store on {type(recv).__name__}")
 
     def del_item(self, recv, idx, p):
+        if isinstance(recv, VList) and isinstance(idx, VInt):
+            seq = p.st.elems(recv.ref)
+            i = idx.term
+            out = []
+            for (q, side) in self.fork(p, z3.And(i >= 0, i < T.Len(seq)), "delidx"):
+                if side:
+                    q.st.write("elems", recv.ref, T.delnth(seq, i))
+                    out.append((q, None))
+                else:
+                    out.append((q, ("raise", VRaise("IndexError"))))     # negative indices are not modelled
+            return out
         raise Unsupported("del item")
 
     # ------------------------------------------------------------------ comprehensions
@@ -993,7 +1006,9 @@ class FullEngine(Engine):
             q.trail.append(f"[{qualname.split('.')[-1]}:{o.label or oi}]")
             self.enter_outcome(q, o, p.st)
             if o.exc is not None:
-                out.append((q, VRaise(o.exc, f"from {qualname}")))
+                names = (o.exc,) if isinstance(o.exc, str) else tuple(o.exc)
+                for k_, en in enumerate(names):
+                    out.append((q if k_ == len(names) - 1 else q.copy(), VRaise(en, f"from {qualname}")))
             else:
                 res = o.result if o.result is not None else NONE_V
                 if c.is_generator and o.out is not None:
@@ -1085,7 +1100,34 @@ class FullEngine(Engine):
 
     # -- user callbacks ----------------------------------------------------------------------------------------------
     def call_callback(self, cb: VCallback, args, kw, p: Path):
-        raise Unsupported("callback call (enabled by the helpers contracts)")
+        """user callback (A7): a deterministic function of its arguments that may raise at any invocation"""
+        if kw:
+            raise Unsupported("keyword arguments to a callback")
+        refs = [self.ref_of(a) for a in args]
+        if any(r is None for r in refs):
+            raise Unsupported("callback argument")
+        out = []
+        paths = []
+        for (q, side) in self.fork(p, cb.term == NONE, "cbNone"):
+            if side:
+                out.append((q, VRaise("TypeError", "None is not callable")))
+            else:
+                paths.append(q)
+        for q in paths:
+            if len(refs) == 1:
+                rz, tv, val = T.cb1_raises(cb.term, refs[0]), T.cb1(cb.term, refs[0]), T.cbv1(cb.term, refs[0])
+            elif len(refs) == 2:
+                rz, tv, val = T.cb2_raises(cb.term, *refs), T.cb2(cb.term, *refs), None
+            else:
+                raise Unsupported("callback arity")
+            for (r, side) in self.fork(q, rz, f"cb:{cb.family}raises"):
+                if side:
+                    out.append((r, VRaise("UserExc", cb.family)))
+                elif cb.family.startswith("v") and val is not None:
+                    out.append((r, VRef(val, None, "opaque")))
+                else:
+                    out.append((r, VBool(tv)))
+        return out
 
     # -- container methods -------------------------------------------------------------------------------------------
     def call_container_method(self, recv, name, args, kw, p: Path):
@@ -1176,6 +1218,18 @@ class FullEngine(Engine):
             if name == "tuple":
                 return [(p, VSeq(s, ecn, "tuple"))]
             return [(p, self.new_list(p, s, ecn))]
+        if name == "range" and 1 <= len(args) <= 3 and all(isinstance(a, VInt) for a in args):
+            if len(args) == 1:
+                start, stop, step = z3.IntVal(0), args[0].term, 1
+            else:
+                start, stop = args[0].term, args[1].term
+                step = 1
+                if len(args) == 3:
+                    st_ = z3.simplify(args[2].term)
+                    if not z3.is_int_value(st_) or st_.as_long() == 0:
+                        raise Unsupported("range with a symbolic step")
+                    step = st_.as_long()
+            return [(p, VConst(("range", start, stop, step)))]
         if name == "set" and not args:
             return [(p, self.new_set(p))]
         if name == "dict" and not args:
